@@ -40,7 +40,9 @@ pub fn c02(o: &mut O, tier: &str, rng: &mut Rng, prop: u8) {
     // corpus: minimal witnesses of past defects (D2, D4, D5) and of the open finding D1
     corpus(o, rng, prop, &accept);
     for i in 0..n {
-        let mut plan = random_plan(rng);
+        // the product of the feature axes (both options, carrier, form body, token, a Date header next to
+        // X-Amz-Date) is enumerated by the counter, everything else is drawn
+        let mut plan = covering_plan(rng, i);
         // keep '+' out of literal path spellings here; the D1 class is seeded explicitly above
         let sp = if i % 5 == 0 { Spelling::canonical() } else { Spelling::random(rng) };
         let off = window_offset(rng);
@@ -65,12 +67,33 @@ pub fn c02(o: &mut O, tier: &str, rng: &mut Rng, prop: u8) {
         let tags = format!(
             "c02,{},{},{},{}{}",
             if plan.query_carrier { "query_carrier" } else { "header_carrier" },
-            if plan.s3 { "s3" } else if plan.fold { "fold" } else { "std" },
+            if plan.s3 && plan.fold { "s3+fold" } else if plan.s3 { "s3" } else if plan.fold { "fold" } else { "std" },
             if plan.token.is_some() { "token" } else { "notoken" },
             format!("style{}", sp.style),
             if has_plus_in_path(&b.wire) { ",plus" } else { "" }
         );
         emit(o, prop, &b.wire, &cfg, &b.prov, &accept, &tags);
+    }
+    // bodies at the 64 KiB boundary, hashed as they are, with the headers an S3 client sends along (all signed)
+    let sizes: &[usize] = if tier == "quick" { &[65536] } else { &[65535, 65536, 65537, 131072] };
+    for (k, sz) in sizes.iter().enumerate() {
+        let mut plan = base_plan();
+        plan.method = "PUT".to_string();
+        plan.query_carrier = k % 2 == 1;
+        plan.s3 = k % 2 == 0;
+        plan.segments = vec![b"bucket".to_vec(), b"".to_vec(), b"key 1".to_vec()];
+        if !plan.s3 {
+            plan.segments.retain(|s| !s.is_empty());
+        }
+        plan.body = (0..*sz).map(|i| (i * 31 % 251) as u8).collect();
+        plan.headers.push(("content-length".to_string(), sz.to_string().into_bytes()));
+        plan.headers.push(("x-amz-content-sha256".to_string(), hex::encode(signer::sha256(&plan.body)).into_bytes()));
+        plan.headers.push(("expect".to_string(), b"100-continue".to_vec()));
+        for h in ["content-length", "x-amz-content-sha256", "expect"] {
+            plan.signed.push(h.to_string());
+        }
+        let b = build(&plan, &Spelling::canonical(), rng, 0);
+        emit(o, prop, &b.wire, &b.cfg, &b.prov, &accept, &format!("c02,big_body,{}", if plan.query_carrier { "query_carrier" } else { "header_carrier" }));
     }
 }
 
@@ -101,6 +124,8 @@ pub fn base_plan() -> Plan {
         credential_override: None,
         key_scope_override: None,
         raw_key_override: None,
+        extra_date: None,
+        sts_scope_override: None,
     }
 }
 
@@ -166,7 +191,10 @@ pub fn c01(o: &mut O, tier: &str, rng: &mut Rng) {
         ts: None,
     };
     for i in 0..n {
-        let mut plan = random_plan(rng);
+        let mut plan = covering_plan(rng, i);
+        if plan.fold && plan.form {
+            plan.method = "POST".to_string();
+        }
         if i % 3 == 0 {
             // make sure every component exists
             plan.segments = vec![b"res".to_vec(), b"item 1".to_vec()];
@@ -175,15 +203,16 @@ pub fn c01(o: &mut O, tier: &str, rng: &mut Rng) {
                 plan.body = b"payload bytes".to_vec();
             }
         }
-        if i % 4 == 1 {
-            // the client also states the payload hash (truthfully) in a signed header: the hash that
-            // counts is still the one of the body as received
+        if i % 4 == 1 || i % 8 == 2 {
+            // the client also states the payload hash (truthfully) in a signed header (what every S3 client
+            // does; here under S3 canonicalisation for odd i and under the standard one otherwise): the hash
+            // that counts is still the one of the body as received
             plan.headers.retain(|h| h.0 != "x-amz-content-sha256");
             plan.headers.push(("x-amz-content-sha256".to_string(), hex::encode(signer::sha256(&wire_body(&plan))).into_bytes()));
             if !plan.signed.contains(&"x-amz-content-sha256".to_string()) {
                 plan.signed.push("x-amz-content-sha256".to_string());
             }
-            if !plan.form && plan.body.is_empty() {
+            if !plan.form && plan.body.is_empty() && i % 8 != 5 {
                 plan.body = b"stated payload".to_vec();
                 plan.headers.retain(|h| h.0 != "content-length" && h.0 != "content-md5" && h.0 != "x-amz-content-sha256");
                 plan.headers.push(("x-amz-content-sha256".to_string(), hex::encode(signer::sha256(b"stated payload")).into_bytes()));
@@ -277,6 +306,46 @@ pub fn c01(o: &mut O, tier: &str, rng: &mut Rng) {
                 let mut w = b.wire.clone();
                 w.uri = w.uri.replace("k=v", "j=v");
                 mutants.push(("query_name".to_string(), w, b.cfg.clone(), b.prov.clone()));
+            }
+        }
+        // --- query: a second raw '=' inside a component belongs to the value (`k=v=x` is the pair (k, "v=x"));
+        // appended to each component of the URL query and, when folding, of the form body
+        {
+            let (path, query) = match b.wire.uri.split_once('?') {
+                Some((p, q)) => (p.to_string(), q.to_string()),
+                None => (b.wire.uri.clone(), String::new()),
+            };
+            let comps: Vec<&str> = if query.is_empty() { vec![] } else { query.split('&').collect() };
+            for (ci, comp) in comps.iter().enumerate() {
+                if comp.is_empty() || (tier == "quick" && comps.len() > 4 && (ci + i) % 2 == 1) {
+                    continue;
+                }
+                for (ti, tail) in ["=x", "==", "=", "=&="].iter().enumerate() {
+                    if (tier == "quick" && i != 0 && (ti + ci + i) % 2 == 1) || (*tail == "=" && !comp.contains('=')) {
+                        // (`k` and `k=` are the same pair)
+                        continue;
+                    }
+                    let mut cs: Vec<String> = comps.iter().map(|c| c.to_string()).collect();
+                    cs[ci] = format!("{}{}", comp, tail);
+                    let mut w = b.wire.clone();
+                    w.uri = format!("{}?{}", path, cs.join("&"));
+                    mutants.push(("query_component_extra_equals".to_string(), w, b.cfg.clone(), b.prov.clone()));
+                }
+            }
+            if plan.form && plan.fold && !b.wire.body.is_empty() {
+                for tail in [&b"=x"[..], b"=="] {
+                    let mut w = b.wire.clone();
+                    w.body.extend(tail);
+                    mutants.push(("form_body_extra_equals".to_string(), w, b.cfg.clone(), b.prov.clone()));
+                    let mut w = b.wire.clone();
+                    if let Some(p) = w.body.iter().position(|c| *c == b'&') {
+                        let mut nb = w.body[..p].to_vec();
+                        nb.extend(tail);
+                        nb.extend(&w.body[p..]);
+                        w.body = nb;
+                        mutants.push(("form_body_extra_equals".to_string(), w, b.cfg.clone(), b.prov.clone()));
+                    }
+                }
             }
         }
         // --- query: an added parameter whose name is a letter-case variant / near miss of an
